@@ -11,3 +11,4 @@ package states
 //@ func GetValueFromRawStorageItem
 //@   trusted
 //@   ensures r1 == nil ==> rawItem(bytes(r0)) == bytes(raw)
+//@   ensures len(raw) == 0 ==> r1 != nil   -- an empty buffer has no state-version byte: Deserialize fails with EOF
